@@ -490,7 +490,19 @@ def run(R):
     sfa = PR.facts(sf)
     keys = [c for c in sf.calls if c.func.get("trait") == "sqlgrep::execution::ColumnProvider" and c.func.get("trait_method") == "keys"]
     wild = [c for c in sf.calls if short(c.name).endswith("SelectStatement::is_wildcard_projection")]
-    if keys and wild:
+    def under_wildcard_pattern(bb):
+        """`match projections.as_slice() { [(_, ExpressionTree::Wildcard)] => .. }`: the test spelled as a pattern"""
+        ws = sfa.worlds_at(bb)
+        if not ws:
+            return False
+        for w in ws:
+            if not any(sfa.atoms.get(k_, {}).get("kind") == "discr" and (sfa.atoms.get(k_, {}).get("adt") or "").endswith("model::ExpressionTree")
+                       and v_ == "Wildcard" for k_, v_ in w):
+                return False
+        return True
+    if keys and not wild and all(under_wildcard_pattern(k.bb) for k in keys):
+        R.ok("C03.project", "wildcard", "`*` iterates ColumnProvider::keys() (under a `[(_, Wildcard)]` pattern)", keys[0].loc())
+    elif keys and wild:
         under = all(any(call is wild[0] and val is True for call, val in sfa.call_facts(k.bb)) for k in keys)
         if under:
             R.ok("C03.project", "wildcard", "`*` iterates ColumnProvider::keys()", keys[0].loc())
